@@ -15,6 +15,7 @@
 
 extern void vsim_sched_point(int kind);   /* thread engine hook (no-op unless the thread engine is running) */
 
+extern void __sanitizer_print_stack_trace(void) __attribute__((weak));
 static int g_enabled = 0;
 static __thread int t_node = 0;
 
@@ -173,6 +174,7 @@ ssize_t __wrap_read(int fd, void *buf, size_t n)
         for (int k = 0; k < 8 && i < n; k++, i++) { b[i] = (unsigned char) (v >> (8 * k)); }
     }
     g_ent_bytes += n;
+    { static int tr = -1; if (tr < 0) { tr = getenv("VSIM_ENT_TRACE") ? 1 : 0; } if (tr) { dprintf(2, "ENT node=%d len=%zu draw#%llu\n", t_node, n, (unsigned long long) g_ent_seq); if (getenv("VSIM_ENT_BT") && (long) g_ent_seq == atol(getenv("VSIM_ENT_BT")) && __sanitizer_print_stack_trace) { __sanitizer_print_stack_trace(); } } }
     vsim_draw_t *d = &g_draws[g_ent_seq % DRAW_RING];
     d->node = t_node; d->len = (uint32_t) n; d->seq = g_ent_seq;
     memset(d->head, 0, sizeof d->head);
@@ -284,7 +286,7 @@ static int should_fail(const char *file, const char *func)
     return 0;
 }
 
-extern void __sanitizer_print_stack_trace(void) __attribute__((weak));
+
 static long g_bt_alloc = -2;
 static uint32_t *g_site_trace; static size_t g_site_trace_max;
 void vsim_alloc_site_trace(uint32_t *buf, size_t max) { g_site_trace = buf; g_site_trace_max = max; }
